@@ -24,6 +24,13 @@ func C11(c *core.Ctx) {
 		return strings.HasPrefix(k, "R4.5:stream-compaction-covers-pending") || strings.HasPrefix(k, "R4.5:stream-buffer-holds-largest-block")
 	})
 
+	// ---- R11.6 (shared with C03 R3.2) both de-framers compute the block boundaries from the
+	// T and L that ReadTLNum decodes: its threshold table is the 1/3/5/9 code (a 1-octet form
+	// that ends at 0xfb or reaches 0xfd cuts a block of length 252 / 253 at the wrong place)
+	c.Import(C03, "R11.6", "the number decoder the de-framers read T and L with deviates from the TLV number code: a block whose type or length sits on the boundary of a form is split or merged", 1, func(k string) bool {
+		return strings.HasPrefix(k, "R3.2:table:ReadTLNum")
+	})
+
 	// ---- R11.3 frame ownership
 	ls := p.Named("fw/face", "LinkService")
 	nImpl := 0
